@@ -96,6 +96,54 @@ def dumpLS (st : LS) (out : IO.FS.Stream) : IO Unit := do
   for (n, d) in sortStr st.docs.toList do out.putStrLn s!"doc {hex n} {hex d}"
   for t in (st.errors.toArray.qsort (· < ·)).toList do out.putStrLn s!"error {hex t}"
 
+/-- a definition in tree form (`tdef` + the line `rkh` prints for a `DefEntry`) -/
+def parseTdef (line : String) : Option Gnu.DefEntry :=
+  match line.trimAscii.toString.splitOn " " with
+  | "tdef" :: name :: doc :: cat :: kind :: rest =>
+    let doc := optUnhex (doc.drop 4).toString
+    let cat := optUnhex (cat.drop 4).toString
+    let mk := fun (d : Gnu.Def) => some ({ name := unhex name, defn := d, doc := doc, category := cat } : Gnu.DefEntry)
+    let tree := fun (toks : List String) => match Expr.parseE toks with | some (e, []) => some e | _ => none
+    match kind, rest with
+    | "base", [l] => mk (.baseUnit (optUnhex l))
+    | "prefix", isLong :: toks => (tree toks).bind fun e => mk (.prefix_ e (isLong == "1"))
+    | "unit", toks => (tree toks).bind fun e => mk (.unit e)
+    | "quantity", toks => (tree toks).bind fun e => mk (.quantity e)
+    | "category", [n] => mk (.category (unhex n))
+    | "error", [m] => mk (.error (unhex m))
+    | "substance", sym :: props =>
+      let groups := if props.isEmpty then [] else (" ".intercalate props).splitOn " ; "
+      let ps := groups.filterMap fun g =>
+        match g.trimAscii.toString.splitOn " " with
+        | n :: iname :: oname :: pdoc :: "IN" :: more =>
+          let i := more.takeWhile (· != "OUT")
+          let o := (more.dropWhile (· != "OUT")).drop 1
+          match tree i, tree o with
+          | some ie, some oe => some ({ name := unhex n, inputName := unhex iname, outputName := unhex oname,
+                                        doc := optUnhex (pdoc.drop 4).toString, input := ie, output := oe } : Gnu.PropDef)
+          | _, _ => none
+        | _ => none
+      mk (.substance (optUnhex sym) ps)
+    | _, _ => none
+  | _ => none
+
+/-- `loadt SCENARIO`: blocks of `tdef` lines between `begin` / `end`; each block is one `Context::load` -/
+def loadtMain (path : String) : IO Unit := do
+  let text ← IO.FS.readFile path
+  let out ← IO.getStdout
+  let mut st : LS := {}
+  let mut cur : Array Gnu.DefEntry := #[]
+  let mut bad := 0
+  for line in text.splitOn "\n" do
+    if line.startsWith "begin" then cur := #[]
+    else if line.startsWith "end" then st := loadDefs st cur.toList
+    else if line.startsWith "tdef " then
+      match parseTdef line with
+      | some d => cur := cur.push d
+      | none => bad := bad + 1
+  if bad > 0 then out.putStrLn s!"bad-tdef-lines {bad}"
+  dumpLS st out
+
 /-- `load FILE... [--currency JDEFS UNITS]` -/
 def loadMain (args : List String) : IO Unit := do
   let out ← IO.getStdout
